@@ -53,6 +53,19 @@ pub fn check(cx: &Cx, rep: &mut Report) {
                 if !inc.items.is_empty() || inc.t.is_some() || inc.f.is_some() || !last {
                     rep.fail(P, "R5", "after_started_err", format!("actor task {} (tag {}) went on after started() returned an error", af.task, af.tag), vec![inc.s_in, s_out]);
                 }
+                // "... and the actor terminates as failed": whoever waits for it learns that it did not end gracefully
+                if ix.task_of(af.tag) == Some(af.task) {
+                    for o in ix.ops.iter().filter(|o| o.tag == af.tag && o.e.is_some() && o.executed()) {
+                        let graceful_answer = match (&o.op, &o.res) {
+                            (OpK::Await | OpK::AwaitRef | OpK::Halt, Some(crate::log::Res::Ok)) => true,
+                            (OpK::Join | OpK::Consume, Some(crate::log::Res::Joined(Some(_)))) => true,
+                            _ => false,
+                        };
+                        if graceful_answer {
+                            rep.fail(P, "R5", format!("graceful_answer_after_started_err;op={:?}", o.op), format!("{:?} c{}#{} answered as for a graceful end although started() of actor tag {} had returned an error", o.op, o.c, o.i, af.tag), vec![s_out, o.b]);
+                        }
+                    }
+                }
                 continue;
             }
             // every handler bracket closed before the next opens is C01.R1; here: all inside [s_out, t_in]
